@@ -123,6 +123,48 @@ pub fn gen(rng: &mut Rng, thorough: bool, out: &mut Sink) {
                     all_ids.push(v);
                 }
             }
+            // id sequences that are not encodings of a text: single ids, prefixes and shuffles of encodings. Their
+            // bytes need not be valid UTF-8 (a character split over byte-fallback tokens): decode returns raw bytes
+            let mut pool: Vec<u32> = all_ids.iter().flatten().copied().collect();
+            pool.sort();
+            pool.dedup();
+            let mut odd: Vec<Vec<u32>> = Vec::new();
+            for k in 0..(if full { 40 } else { 6 }) {
+                if pool.is_empty() {
+                    break;
+                }
+                match k % 4 {
+                    0 => odd.push(vec![*rng.pick(&pool)]),
+                    1 => {
+                        let v = rng.pick(&all_ids).clone();
+                        let cut = rng.range(0, v.len());
+                        odd.push(v[..cut.min(v.len())].to_vec());
+                    }
+                    2 => {
+                        let v = rng.pick(&all_ids).clone();
+                        let cut = rng.range(0, v.len());
+                        odd.push(v[cut.min(v.len())..].to_vec());
+                    }
+                    _ => odd.push((0..rng.range(1, 6)).map(|_| *rng.pick(&pool)).collect()),
+                }
+            }
+            for (k, v) in odd.iter().enumerate() {
+                let dflag = [None, Some(true), Some(false)][k % 3];
+                ops.push(json!({"op": "decode", "ids": v, "flag": flag_json(dflag)}));
+                planned.push(Planned {
+                    line_prefix: format!("IMPLEQ py-decode-raw {} {} flag={:?} {}", name, ctor, dflag, ids(v)),
+                    core: dec_core(tok, v, dflag.unwrap_or(false)),
+                    to_model: None,
+                });
+            }
+            if !odd.is_empty() {
+                ops.push(json!({"op": "decode_all", "ids": odd, "flag": Value::Null}));
+                planned.push(Planned {
+                    line_prefix: format!("IMPLEQ py-decode-all-raw {} {} n={}", name, ctor, odd.len()),
+                    core: batch(odd.iter().map(|v| dec_core(tok, v, false)).collect()),
+                    to_model: None,
+                });
+            }
             // ids that are not in the vocabulary: the library error must arrive as an exception
             let bad = vec![1u32, u32::MAX - 7, 2];
             ops.push(json!({"op": "decode", "ids": bad, "flag": Value::Null}));
